@@ -7,7 +7,12 @@ open Pew Pew.Srr
 
 /-- The reported extent of an image is `(0, columns × pixel width, 0, rows × pixel height)` with
 pixel width = speed × scan time and pixel height = spot size for a raster configuration, and the
-x / y spot spacing for a spot configuration.  All parameters, all shapes. -/
+x / y spot spacing for a spot configuration.  All parameters, all shapes.
+(Model mechanism and specification are the same formula up to commutativity, so by itself this says little; its
+content comes from the structural tie: on every run `harness/structural.py` translates `get_pixel_width`,
+`get_pixel_height`, `data_extent` of `Config` / `SpotConfig` from the source and proves the translated terms equal to
+`extentSpec`, and `harness/structural_c10.py` does the same for the SRR pixel sizes, `SRRLaser.extent`, `magnification`,
+the warm-up setter, `subpixels_per_pixel` and the extent → index conversion of `Laser.get`.) -/
 theorem extent_spec {α : Type} (data : Arr2 α) :
     (∀ spotsize speed scantime : Rat,
       laserExtent (.raster spotsize speed scantime) data
@@ -25,10 +30,56 @@ example : laserExtent (.raster 35 (17 / 10) (1 / 10)) ({ rows := 59, cols := 53,
     = { x0 := 0, x1 := 53 * (17 / 100), y0 := 0, y1 := 59 * 35 } := by
   rw [(extent_spec _).1]; simp [extentSpec]; norm_num
 
-/-- a configuration survives its array form, hence so do the pixel sizes and every extent -/
+/-- **A configuration survives its array form, as NumPy builds it**: the 0-d record `spotsize, speed, scantime` of a
+`Config`, the two-element one-field array of a `SpotConfig` (`[("spotsize", f8)]`, x spacing in element 0, y spacing in
+element 1), read back by `from_array` of the same class, give the configuration again - hence the same pixel width,
+pixel height and every extent. -/
 theorem config_array_roundtrip (c : Cfg) :
-    Cfg.fromArray c.kind c.toArray = some c := by
-  cases c <;> rfl
+    Cfg.fromRec c.kind c.toRec = .ok c ∧
+    (∀ c', Cfg.fromRec c.kind c.toRec = .ok c' →
+      c'.pixelWidth = c.pixelWidth ∧ c'.pixelHeight = c.pixelHeight ∧ ∀ shape, c'.dataExtent shape = c.dataExtent shape) := by
+  have h : Cfg.fromRec c.kind c.toRec = .ok c := by
+    cases c <;>
+      simp [Cfg.fromRec, Cfg.toRec, Cfg.kind, RecArr.floatField, RecArr.field, RecArr.fieldIdx, spotElem, List.findIdx_cons,
+        bind, Except.bind, pure, Except.pure]
+  refine ⟨h, ?_⟩
+  intro c' hc'
+  rw [h] at hc'
+  cases hc'
+  exact ⟨rfl, rfl, fun _ => rfl⟩
+
+example : Cfg.fromRec .spot (Cfg.spot (3 / 10) (7 / 1000)).toRec = .ok (.spot (3 / 10) (7 / 1000)) ∧
+    (Cfg.spot (3 / 10) (7 / 1000)).toRec = { names := ["spotsize"], dim := some 2, recs := [[.num (3 / 10)], [.num (7 / 1000)]] } :=
+  ⟨(config_array_roundtrip (Cfg.spot (3 / 10) (7 / 1000))).1, rfl⟩
+
+/-- `Config.from_array` reads by name: ANY 0-d array that has float fields `spotsize`, `speed`, `scantime` - in any
+order, with any further fields (an older or newer layout, an `SRRConfig` array) - gives the raster configuration of those
+three values. -/
+theorem raster_from_any_layout (a : RecArr) (r : List FVal) (h0 : a.dim = none) (hr : a.recs = [r])
+    (i j k : Nat) (s v t : Rat)
+    (hi : a.fieldIdx "spotsize" = some i) (hj : a.fieldIdx "speed" = some j) (hk : a.fieldIdx "scantime" = some k)
+    (vi : r.getD i (.num 0) = .num s) (vj : r.getD j (.num 0) = .num v) (vk : r.getD k (.num 0) = .num t) :
+    Cfg.fromRec .raster a = .ok (.raster s v t) := by
+  rw [List.getD_eq_getElem?_getD] at vi vj vk
+  simp [Cfg.fromRec, RecArr.floatField, RecArr.field, hi, hj, hk, h0, hr, vi, vj, vk, bind, Except.bind, pure, Except.pure]
+
+example :
+    Cfg.fromRec .raster ({ names := ["scantime", "extra", "speed", "spotsize"], dim := none, recs := [[.num 1, .num 9, .num 2, .num 3]] } : RecArr)
+      = .ok (.raster 3 2 1) :=
+  raster_from_any_layout _ _ rfl rfl 3 2 0 3 2 1 (by decide) (by decide) (by decide) rfl rfl rfl
+
+/-- **`from_array` on the arrays of the other configuration classes** (what the real calls do):
+`SpotConfig.from_array` of a raster or SRR array is an IndexError (a 0-d array cannot be indexed),
+`Config.from_array` of a spot array is a TypeError (`float()` of a two-element array),
+`Config.from_array` of an SRR array SUCCEEDS and keeps spot size, speed and scan time (warm-up and offsets are dropped). -/
+theorem config_array_cross_kind (spotsize speed scantime sx sy : Rat) (c : SrrConfig) :
+    Cfg.fromRec .spot (Cfg.raster spotsize speed scantime).toRec = .error .indexError ∧
+    Cfg.fromRec .raster (Cfg.spot sx sy).toRec = .error .typeError ∧
+    Cfg.fromRec .raster c.toRec = .ok (.raster c.spotsize c.speed c.scantime) ∧
+    Cfg.fromRec .spot c.toRec = .error .indexError := by
+  refine ⟨?_, ?_, ?_, ?_⟩ <;>
+    simp [Cfg.fromRec, Cfg.toRec, SrrConfig.toRec, SrrConfig.toArray, srrNames, RecArr.floatField, RecArr.field,
+      RecArr.fieldIdx, List.findIdx_cons, bind, Except.bind, pure, Except.pure, throw, throwThe, MonadExceptOf.throw]
 
 /-- Reading a pixel-aligned rectangle.  For all positive pixel sizes, all `r0 ≤ r1 ≤ rows`,
 `c0 ≤ c1 ≤ cols`, and every perturbation smaller than 5·10⁻⁷ of each of the four quotients
